@@ -49,6 +49,9 @@ THEOREMS = [
     "XalanModel.Props.C02.compare_identity_nan_counterexample",
     "XalanModel.Props.C02.compare_identity_empty_counterexample",
     "XalanModel.Props.C02.compare_identity_nodeset_counterexample",
+    "XalanModel.Props.C02.predicates_spec_partial",
+    "XalanModel.Props.C02.predicates_literal_spec",
+    "XalanModel.Props.C02.axes_spec_sample_partial",
 ]
 
 CORPUS_EXPR = [
@@ -115,6 +118,7 @@ def run(ctx):
     r = Rng(ctx.seed)
     compile_stream(ctx, r, harness, model, work)
     compare_stream(ctx, r, harness, model, work)
+    eval_stream(ctx, r, harness, model, work)
 
 
 def impl_compile(harness, work, toks):
@@ -317,7 +321,17 @@ def compare_stream(ctx, r, harness, model, work):
         avals = [r.choice(texts) for _ in range(r.range(1, 3))]
         bvals = [r.choice(texts) for _ in range(r.range(1, 2))]
         xml = "<r>" + "".join("<a>%s</a>" % t for t in avals) + "".join("<b>%s</b>" % t for t in bvals) + "<e/></r>"
-        lines.append("doc %s %s" % (hx(xml), "r,-,-,-1"))
+        tbl = [("r", "", "", -1), ("e", "r", "", 0)]
+        for t in avals:
+            tbl.append(("e", "a", "", 1))
+            if t:
+                tbl.append(("t", "", t, len(tbl) - 1))
+        for t in bvals:
+            tbl.append(("e", "b", "", 1))
+            if t:
+                tbl.append(("t", "", t, len(tbl) - 1))
+        tbl.append(("e", "e", "", 1))
+        lines.append("doc %s %s" % (hx(xml), g.table_text(tbl)))
         meta.append(None)
         env = {}
         for nm, val in (("t", True), ("f", False)):
@@ -376,6 +390,145 @@ def compare_stream(ctx, r, harness, model, work):
                "on every generated pair (incl. the same object on both sides)", "correspondence", not disagree, json.dumps(disagree[:3], default=str))
     if disagree:
         ctx.extra["compare_disagreements"] = disagree[:20]
+
+
+# ---------------------------------------------------------------------------------------------
+# evaluation: location paths over all axes, predicates, unions, functions, arithmetic
+
+EVAL_CORPUS = [
+    "('12' > 5) and ('abc' > 5)", "('5' > 1) and ('2' < '3')", "count(//*[position() > 1][position() = 1])",
+    "number(concat('1', '2')) + number(string(3)) + number(concat('x', 'y'))",
+    "/*/*[position()=last()][position()=1]", "*[position()=2][position()=1]", "//*[position()=last()][1]",
+    "/ | //a", "//a/preceding-sibling::*[1]", "//a/ancestor::*[last()]", "(//a)[last()]/preceding::*[2]",
+    "//*[2]/following::node()[position() < 3]", "count(//@*)", "sum(//a) div count(//a)", "-(0)", "5 mod -2", "-5 mod 2",
+    "1 div 0", "-1 div 0", "0 div 0", "(0 div 0) != (0 div 0)", "1 div -(0)", "substring('12345', 1.5, 2.6)",
+    "substring('12345', 0 div 0)", "substring('12345', -1 div 0, 1 div 0)", "//text()[. = 'x']/..", "//a[b][1]",
+    "//a[@p or @q][last()]", "string(//a[2])", "count(//@node()) - count(//@*)", "-1 div -(0)", "5 mod (1 div 0)", "-4 mod 2",
+    "1 mod 0.1", "(1 div 0) mod 2", "5.5 mod 2", "-5.5 mod 2", "name(//*[@*][1]/@*[1])", "//comment() | //processing-instruction()",
+]
+
+
+def classify_eval(text, iv, mv, sv):
+    """None, or (key, what) when the implementation's value differs from the specification's"""
+    if iv == sv:
+        return None
+    if iv == "err" and sv != "err":
+        cls = "root-before-union" if re.search(r"(^|[(\[|,])\s*/\s*\|", text) else "other"
+        return ("eval.rejects[%s]: %s" % (cls, text), "expression rejected / failed (specification value %s)" % sv)
+    if re.search(r"(@|attribute::)\s*node\(\)", text):
+        return ("eval.attribute-node-test[namespace-declaration]: %s" % text,
+                "value %s, the specification gives %s (attribute::node() also selects xmlns declarations, incl. the implicit xmlns:xml)" % (iv, sv))
+    if iv == mv and re.search(r"\bmod\b", text):
+        return ("eval.arith[mod]: %s" % text, "value %s, IEEE remainder (XPath 3.5) gives %s" % (iv, sv))
+    if iv == mv and re.search(r"\bdiv\b", text) and not g.uses_multi_position_pred(text):
+        return ("eval.arith[div]: %s" % text, "value %s, IEEE division gives %s" % (iv, sv))
+    if mv == sv and re.search(r"'|string\(|name\(|concat\(|substring\(|translate\(|normalize-space\(", text) and \
+            re.search(r"[<>=]|[-+*]|\bdiv\b|\bmod\b|number\(|floor\(|ceiling\(|round\(|\[", text):
+        return ("eval.recycled-xstring-number: %s" % text,
+                "value %s, the specification gives %s (an XString recycled by XObjectFactoryDefault::createString keeps the "
+                "number cached for its previous value)" % (iv, sv))
+    if iv == mv and g.uses_multi_position_pred(text):
+        return ("eval.stale-position[multi-predicate]: %s" % text,
+                "value %s, XPath 2.4 gives %s (position() answered from the cache of the previous predicate)" % (iv, sv))
+    return ("eval.wrong: %s" % text, "value %s, the specification gives %s" % (iv, sv))
+
+
+def eval_session_lines(xml, table, exprs_ctx):
+    lines = ["doc %s %s" % (hx(xml), g.table_text(table))]
+    for nm, ex in (("na", "//a"), ("nb", "//b[1] | //c"), ("nz", "//zz")):
+        lines.append("var %s x %s" % (nm, hx(ex)))
+    for text, c in exprs_ctx:
+        lines.append("eval %d %s" % (c, hx(text)))
+    return lines
+
+
+def eval_stream(ctx, r, harness, model, work):
+    nsess, nexpr, depth = (60, 60, 2) if not ctx.thorough else (1200, 100, 3)
+    lines = []
+    meta = []
+    for si in range(nsess):
+        xml, table = g.gen_doc2(r)
+        ec = []
+        if si < 3:
+            for t in EVAL_CORPUS:
+                ec.append((t, 0, None, xml, table))
+                ec.append((t, 1, None, xml, table))
+        for _ in range(nexpr):
+            term = g.g_top(r, r.range(1, depth))
+            text = g.rnd(term)
+            c = r.below(len(table))
+            ec.append((text, c, term, xml, table))
+        sl = eval_session_lines(xml, table, [(t, c) for (t, c, _, _, _) in ec])
+        lines += sl
+        meta += [None] * (len(sl) - len(ec)) + ec
+    il, ml, irc, mrc, ierr, merr, req = run_requests(harness, model, lines, work, "eval")
+    disagree = []
+    nerr = 0
+    for i, m in enumerate(meta):
+        iv = il[i] if i < len(il) else None
+        mraw = ml[i] if i < len(ml) else None
+        if iv is None or mraw is None:
+            ctx.oblige("harness and model answered every evaluation request", "correspondence", False,
+                       "stopped at line %d: %s %s" % (i, ierr[-500:], merr[-300:]))
+            break
+        if m is None:
+            if not lines[i].startswith("doc") and iv != mraw:
+                disagree.append({"line": lines[i], "impl": iv, "model": mraw})
+            elif lines[i].startswith("doc") and iv != mraw:
+                disagree.append({"line": "doc (node count)", "impl": iv, "model": mraw})
+            continue
+        text, c, term, xml, table = m
+        mv, _, sv = mraw.partition(" || ")
+        iv_c = iv.replace(" !order", "")
+        if iv == "err":
+            nerr += 1
+        kind = iv.split(" ")[0]
+        ctx.case(nontrivial_key=(text, c, xml) if ("[" in text or "::" in text or "(" in text) else None,
+                 sample={"doc": xml, "context": c, "expr": text, "impl": iv} if i % 1499 == 7 else None,
+                 cls="eval:" + kind)
+        if "!order" in iv:
+            ctx.fail("eval.order: %s" % text, "node-set not delivered in document order: %s" % iv, {"doc": xml, "context": c, "expr": text})
+        bad = classify_eval(text, iv_c, mv, sv)
+        if bad:
+            stext, sc = text, c
+            if term is not None and bad[0].startswith("eval.wrong"):
+                stext = shrink_eval(harness, model, work, xml, table, term, c, bad[0].split(":")[0])
+            key = bad[0].split(":")[0] + ": " + stext
+            ctx.fail(key, bad[1] + " [doc %s, context node %d]" % (xml, c),
+                     {"lines": eval_session_lines(xml, table, [(stext, c)]), "doc": xml, "context": c, "expr": stext})
+        if iv_c != mv and not (bad and (bad[0].startswith("eval.rejects[root-before-union]") or bad[0].startswith("eval.attribute-node-test")
+                                        or bad[0].startswith("eval.recycled-xstring-number"))):
+            disagree.append({"doc": xml, "context": c, "expr": text, "impl": iv, "model": mv, "spec": sv})
+    ctx.extra["eval_impl_errors"] = nerr
+    ctx.oblige("correspondence: XPath::execute (type, value, node ids in delivered order) = Lean model evaluator on every "
+               "generated expression/document/context", "correspondence", not disagree, json.dumps(disagree[:3]))
+    if disagree:
+        ctx.extra["eval_disagreements"] = disagree[:20]
+
+
+def shrink_eval(harness, model, work, xml, table, term, c, cls, budget=60):
+    cur = term
+    changed = True
+    while changed and budget > 0:
+        changed = False
+        for cand in g.shrink_candidates(cur):
+            if budget <= 0:
+                break
+            text = g.rnd(cand)
+            if len(text) >= len(g.rnd(cur)):
+                continue
+            budget -= 1
+            lines = eval_session_lines(xml, table, [(text, c)])
+            il, ml, *_ = run_requests(harness, model, lines, work, "shrink")
+            if len(il) < len(lines) or len(ml) < len(lines):
+                continue
+            mv, _, sv = ml[-1].partition(" || ")
+            bad = classify_eval(text, il[-1].replace(" !order", ""), mv, sv)
+            if bad and bad[0].split(":")[0] == cls:
+                cur = cand
+                changed = True
+                break
+    return g.rnd(cur)
 
 
 def replay(ctx, path):
